@@ -689,6 +689,9 @@ def b_pow(E, st, args, kw):
             t = MODPOW(zb, ze, zm)
             ok.fact(z3.Implies(zm > 0, z3.And(t >= 0, t < zm)))
             ok.fact(z3.Implies(zm < 0, z3.And(t <= 0, t > zm)))
+            if isinstance(e, int) and 0 <= e <= 2:
+                # small constant exponent: the definition written out (positive modulus)
+                ok.fact(z3.Implies(zm > 0, t == [z3.IntVal(1), zb, zb * zb][e] % zm))
             outs.append(('val', ok, mk_int(t)))
     return outs
 
